@@ -371,6 +371,204 @@ theorem litKind_ne_zero {t : List Char} (h : litKind t ≠ 0) : ∃ a, numLit? t
   | none => simp [hn] at h
   | some a => exact ⟨a, rfl⟩
 
+theorem litKind_one {t : List Char} (h : litKind t = 1) : ∃ i, numLit? t = some (.int i) := by
+  unfold litKind at h
+  split at h
+  · rename_i i hi; exact ⟨i, hi⟩
+  · simp at h
+  · simp at h
+
+theorem litKind_two {t : List Char} (h : litKind t = 2) : ∃ f, numLit? t = some (.float f) := by
+  unfold litKind at h
+  split at h
+  · simp at h
+  · rename_i f hf; exact ⟨f, hf⟩
+  · simp at h
+
+theorem boolOf_mem {t : List Char} {b : Bool} (h : boolOf t = some b) : (t, b) ∈ boolSpellings := by
+  unfold boolOf at h
+  cases hf : boolSpellings.find? (fun sp => sp.1 == t) with
+  | none => simp [hf] at h
+  | some sp =>
+    simp only [hf, Option.map_some, Option.some.injEq] at h
+    have h1 := List.mem_of_find?_eq_some hf
+    have h2 := List.find?_some hf
+    simp only [beq_iff_eq] at h2
+    obtain ⟨w, b'⟩ := sp
+    simp only at h h2
+    subst h; subst h2
+    exact h1
+
+theorem lineHyp_spec {ty : BaseType} {items : List (Item (List Char))} {tail : List Char}
+    (h : lineHyp ty items tail = true) :
+    (∀ i ∈ items, (∀ c ∈ i.ws, isWs c = true) ∧ litOk ty i.lit = true) ∧ Separated items ∧
+      ∀ c ∈ tail, isWs c = true := by
+  simp only [lineHyp, Bool.and_eq_true, List.all_eq_true, Bool.not_eq_true', List.isEmpty_eq_false_iff] at h
+  exact ⟨fun i hi => h.1.1 i hi, fun i hi => h.1.2 i hi, h.2⟩
+
+/-! ### completeness: the scanners accept every well-formed ASCII literal (so `intLit?` / `floatLit?` are
+exactly the literal grammars `IntLit.WF` / `FloatLit.WF asciiCC`) -/
+
+theorem spanDigits_stop (rest : List Char) (hrest : Stops asciiDigit rest) : spanDigits rest = ([], rest) := by
+  cases rest with
+  | nil => rfl
+  | cons c t => simp [spanDigits, hrest c rfl]
+
+theorem spanDigits_append (ds rest : List Char) (hds : ∀ c ∈ ds, asciiDigit c = true) (hrest : Stops asciiDigit rest) :
+    spanDigits (ds ++ rest) = (ds, rest) := by
+  induction ds with
+  | nil => exact spanDigits_stop rest hrest
+  | cons d ds ih =>
+    have := ih (fun c hc => hds c (by simp [hc]))
+    simp [spanDigits, hds d (by simp), this]
+
+theorem spanSign_append (sg rest : List Char) (hsg : IsSign sg)
+    (hrest : ∀ c, rest.head? = some c → c ≠ '+' ∧ c ≠ '-') : spanSign (sg ++ rest) = (sg, rest) := by
+  rcases hsg with h | h | h <;> subst h
+  · cases rest with
+    | nil => rfl
+    | cons c t =>
+      have := hrest c rfl
+      simp [spanSign, this.1, this.2]
+  · simp [spanSign]
+  · simp [spanSign]
+
+theorem asciiDigit_not_sign {c : Char} (h : asciiDigit c = true) : c ≠ '+' ∧ c ≠ '-' := by
+  constructor <;> (intro e; rw [e] at h; revert h; decide)
+
+theorem asciiDigit_of_asciiCC {c : Char} (h : asciiCC.isDigit c = true) : asciiDigit c = true := by
+  simp only [asciiCC, tableCC] at h
+  by_cases hlt : c.toNat < 128
+  · simpa [hlt] using h
+  · simp [hlt] at h
+
+theorem intLit?_complete (i : IntLit) (hi : i.WF) : intLit? i.text = some i := by
+  obtain ⟨hsg, hd, hds⟩ := hi
+  have h1 : spanSign i.text = (i.sg, i.d :: i.ds) := by
+    unfold IntLit.text
+    apply spanSign_append _ _ hsg
+    intro c hc
+    simp at hc; subst hc
+    exact asciiDigit_not_sign hd
+  have h2 : spanDigits (i.d :: i.ds) = (i.d :: i.ds, []) := by
+    have := spanDigits_append (i.d :: i.ds) [] (by
+      intro c hc
+      simp at hc
+      rcases hc with hc | hc
+      · rw [hc]; exact hd
+      · exact hds c hc) Stops.nil
+    simpa using this
+  simp [intLit?, h1, h2]
+
+/-- `intLit?` is exactly the grammar `[-+]?[0-9]+` -/
+theorem intLit?_iff (t : List Char) (i : IntLit) : intLit? t = some i ↔ i.text = t ∧ i.WF := by
+  constructor
+  · exact intLit?_sound t i
+  · intro ⟨h1, h2⟩; subst h1; exact intLit?_complete i h2
+
+/-- well-formed with ASCII digits -/
+def ExpWFa (x : Exp) : Prop :=
+  (x.e = 'e' ∨ x.e = 'E') ∧ IsSign x.sg ∧ asciiDigit x.d = true ∧ ∀ c ∈ x.ds, asciiDigit c = true
+
+theorem exp?_complete (x : Option Exp) (hx : ∀ y, x = some y → ExpWFa y) : exp? (optExpText x) = some x := by
+  cases x with
+  | none => rfl
+  | some y =>
+    obtain ⟨he, hsg, hd, hds⟩ := hx y rfl
+    have h1 : spanSign (y.sg ++ y.d :: y.ds) = (y.sg, y.d :: y.ds) := by
+      apply spanSign_append _ _ hsg
+      intro c hc
+      simp at hc; subst hc
+      exact asciiDigit_not_sign hd
+    have h2 : spanDigits (y.d :: y.ds) = (y.d :: y.ds, []) := by
+      have := spanDigits_append (y.d :: y.ds) [] (by
+        intro c hc
+        simp at hc
+        rcases hc with hc | hc
+        · rw [hc]; exact hd
+        · exact hds c hc) Stops.nil
+      simpa using this
+    simp [optExpText, Exp.text, exp?, he, h1, h2]
+
+theorem mant?_complete (mt : Mant) (hd : ∀ c ∈ mt.digits, asciiDigit c = true) (t : List Char)
+    (ht : ∀ c, t.head? = some c → asciiDigit c = false ∧ c ≠ '.') : mant? (mt.text ++ t) = some (mt, t) := by
+  have hstop : Stops asciiDigit t := fun c hc => (ht c hc).1
+  cases mt with
+  | intDot d ds fs =>
+    have hdds : ∀ c ∈ d :: ds, asciiDigit c = true := fun c hc => hd c (by
+      simp at hc; rcases hc with hc | hc <;> simp [Mant.digits, hc])
+    have hfs : ∀ c ∈ fs, asciiDigit c = true := fun c hc => hd c (by simp [Mant.digits, hc])
+    have h1 : spanDigits ((d :: ds) ++ ('.' :: (fs ++ t))) = (d :: ds, '.' :: (fs ++ t)) :=
+      spanDigits_append _ _ hdds (Stops.cons (by decide))
+    have h2 : spanDigits (fs ++ t) = (fs, t) := spanDigits_append _ _ hfs hstop
+    have e : (Mant.intDot d ds fs).text ++ t = (d :: ds) ++ ('.' :: (fs ++ t)) := by simp [Mant.text]
+    rw [e]
+    unfold mant?
+    rw [h1]
+    simp [h2]
+  | dotFrac f fs =>
+    have hffs : ∀ c ∈ f :: fs, asciiDigit c = true := fun c hc => hd c (by simpa [Mant.digits] using hc)
+    have h1 : spanDigits ('.' :: ((f :: fs) ++ t)) = ([], '.' :: ((f :: fs) ++ t)) :=
+      spanDigits_stop _ (Stops.cons (by decide))
+    have h2 : spanDigits ((f :: fs) ++ t) = (f :: fs, t) := spanDigits_append _ _ hffs hstop
+    have e : (Mant.dotFrac f fs).text ++ t = '.' :: ((f :: fs) ++ t) := by simp [Mant.text]
+    rw [e]
+    unfold mant?
+    rw [h1]
+    simp only [if_true]
+    rw [h2]
+  | int d ds =>
+    have hdds : ∀ c ∈ d :: ds, asciiDigit c = true := fun c hc => hd c (by simpa [Mant.digits] using hc)
+    have h1 : spanDigits ((d :: ds) ++ t) = (d :: ds, t) := spanDigits_append _ _ hdds hstop
+    have e : (Mant.int d ds).text ++ t = (d :: ds) ++ t := by simp [Mant.text]
+    rw [e]
+    unfold mant?
+    rw [h1]
+    cases t with
+    | nil => rfl
+    | cons c t2 =>
+      have := (ht c rfl).2
+      simp [this]
+
+/-- a float literal with ASCII digits -/
+def FloatWFa (f : FloatLit) : Prop :=
+  IsSign f.sg ∧ (∀ c ∈ f.mant.digits, asciiDigit c = true) ∧ ∀ x, f.exp = some x → ExpWFa x
+
+theorem floatWFa_of_asciiCC (f : FloatLit) (h : f.WF asciiCC) : FloatWFa f :=
+  ⟨h.1, fun c hc => asciiDigit_of_asciiCC (h.2.1 c hc), fun x hx =>
+    ⟨(h.2.2 x hx).1, (h.2.2 x hx).2.1, asciiDigit_of_asciiCC (h.2.2 x hx).2.2.1,
+      fun c hc => asciiDigit_of_asciiCC ((h.2.2 x hx).2.2.2 c hc)⟩⟩
+
+theorem floatLit?_complete (f : FloatLit) (hf : FloatWFa f) : floatLit? f.text = some f := by
+  obtain ⟨hsg, hd, hx⟩ := hf
+  have hmhead : ∀ c, (f.mant.text ++ optExpText f.exp).head? = some c → c ≠ '+' ∧ c ≠ '-' := by
+    intro c hc
+    cases hm : f.mant with
+    | intDot d ds fs =>
+      simp [hm, Mant.text] at hc; subst hc
+      exact asciiDigit_not_sign (hd _ (by simp [hm, Mant.digits]))
+    | dotFrac g gs => simp [hm, Mant.text] at hc; subst hc; exact ⟨by decide, by decide⟩
+    | int d ds =>
+      simp [hm, Mant.text] at hc; subst hc
+      exact asciiDigit_not_sign (hd _ (by simp [hm, Mant.digits]))
+  have h1 : spanSign f.text = (f.sg, f.mant.text ++ optExpText f.exp) := spanSign_append _ _ hsg hmhead
+  have hexp : ∀ c, (optExpText f.exp).head? = some c → asciiDigit c = false ∧ c ≠ '.' := by
+    intro c hc
+    cases he : f.exp with
+    | none => simp [he, optExpText] at hc
+    | some y =>
+      simp [he, optExpText, Exp.text] at hc; subst hc
+      rcases (hx y he).1 with h | h <;> rw [h] <;> exact ⟨by decide, by decide⟩
+  have h2 := mant?_complete f.mant hd (optExpText f.exp) hexp
+  have h3 := exp?_complete f.exp hx
+  simp [floatLit?, h1, h2, h3]
+
+/-- `floatLit?` is exactly the float-literal grammar over ASCII digits -/
+theorem floatLit?_iff (t : List Char) (f : FloatLit) : floatLit? t = some f ↔ f.text = t ∧ f.WF asciiCC := by
+  constructor
+  · exact floatLit?_sound asciiCC asciiCC_sane t f
+  · intro ⟨h1, h2⟩; subst h1; exact floatLit?_complete f (floatWFa_of_asciiCC f h2)
+
 end recognisers
 
 end Re
